@@ -255,6 +255,9 @@ func init() {
 				qd = 0 // thorough only
 				td = th + 2
 			}
+			if n == 4 {
+				qd = th + 1
+			}
 			parts = append(parts, part{fmt.Sprintf("neofs-votes-n%d", n), func() Driver { return NewVoteDriver(n, n >= 3, full) }, qd, td, 30, 150})
 		}
 		// without the symmetry reduction (every voter order), thorough tier only
@@ -264,6 +267,72 @@ func init() {
 	gridCheck("C05", []func() GridDriver{
 		func() GridDriver { return NewFeeGrid(1) }, func() GridDriver { return NewFeeGrid(4) }, func() GridDriver { return NewFeeGrid(7) },
 	}, 25, 120, nil)
+	{
+		// C19: four ledger explorations (Notary on/off x Alphabet sizes) + the emit/acceptance grid
+		mkG := func(notary bool, n int) func() Driver { return func() Driver { return NewGasDriver(notary, n) } }
+		Registry["C19"] = &Check{
+			Run: func(tier string, seed int64) int {
+				kf := LoadFindings()
+				var total *Stats
+				per := map[string]any{}
+				for _, p := range []struct {
+					name   string
+					notary bool
+					n      int
+				}{{"neofs-gas-notary-n1", true, 1}, {"neofs-gas-notary-n4", true, 4}, {"neofs-gas-legacy-n1", false, 1}, {"neofs-gas-legacy-n4", false, 4}} {
+					o := Options{Property: "C19", Tier: tier, Seed: seed, Workers: Workers(), Depth: 3, ConfCap: 40, Deadline: 8 * time.Minute}
+					if tier == "thorough" {
+						o.Depth, o.ConfCap, o.Deadline = 5, 200, 60*time.Minute
+					}
+					o.Depth = EnvInt("VERIF_DEPTH", o.Depth)
+					o.Params = map[string]any{"depth": o.Depth, "tier": tier, "part": p.name}
+					mk := mkG(p.notary, p.n)
+					st := Explore(mk, o, kf)
+					Conformance(mk, st, o)
+					per[p.name] = map[string]any{"states": st.States, "transitions": st.Transitions, "completed_depth": st.CompletedDepth, "conformance": st.ConfValidated}
+					if len(st.Violations) > 0 {
+						return Finish(mk, p.name, st, o, map[string]any{"parts": per}, nil)
+					}
+					total = mergeStats(total, st)
+				}
+				gs := newGridStats()
+				conf := 40
+				if tier == "thorough" {
+					conf = 200
+				}
+				RunGrid(func() GridDriver { return NewEmitGrid() }, "C19", tier, seed, conf, kf, gs)
+				gs.Parts["ledger-explorations"] = per
+				return FinishGrid("C19", "grid", tier, seed, gs, total, nil)
+			},
+			Replay: func(rf *ReplayFile) int {
+				if rf.Driver == "grid" {
+					return replayGrid(rf, []func() GridDriver{func() GridDriver { return NewEmitGrid() }})
+				}
+				var mk func() Driver
+				switch rf.Driver {
+				case "neofs-gas-notary-n1":
+					mk = mkG(true, 1)
+				case "neofs-gas-notary-n4":
+					mk = mkG(true, 4)
+				case "neofs-gas-legacy-n1":
+					mk = mkG(false, 1)
+				default:
+					mk = mkG(false, 4)
+				}
+				v, names := ReplayOps(mk, rf.Ops)
+				for i, n := range names {
+					fmt.Printf("  %2d. %s\n", i+1, n)
+				}
+				if v == nil {
+					fmt.Printf("replay of %s: the operation list runs without a violation on this tree\n", rf.Property)
+					return 0
+				}
+				fmt.Printf("replay of %s: %s\n", rf.Property, v.String())
+				fmt.Printf("VIOLATION property=%s replay=%s\n", rf.Property, os.Getenv("VERIF_REPLAY_PATH"))
+				return 1
+			},
+		}
+	}
 	bfsCheckT("C08", "netmap-history", func(tier string) func() Driver {
 		if tier == "thorough" {
 			return func() Driver { return NewSnapDriver([]int{0, 1, 2, 3, 4, 5, 6, 7, 8, 9, 10, 11, 12}, 30, 2) }
